@@ -1,7 +1,7 @@
 (* C12: narrowing a directory created with (mode | 0700) under the umask -- or the pre-created
    base directory -- to its recorded mode leaves mode minus umask.  Bit by bit: the twelve mode
    bits one after the other, all higher bits at once (no vm_compute sweep). *)
-From Oras Require Import Base.Prelude Model.TarRoundTrip.
+From Oras Require Import Base.Prelude Generated.GC12 Model.TarRoundTrip.
 
 Lemma testbit_small a k i : a < 2 ^ k -> k <= i -> N.testbit a i = false.
 Proof.
@@ -36,7 +36,7 @@ Proof.
   assert (Hch : forall c i, c < 4096 -> 12 <= i -> N.testbit c i = false).
   { intros c i Hc Hi. apply (testbit_small c 12); [exact Hc|exact Hi]. }
   split; apply N.bits_inj; intro i;
-    unfold narrow_mode, mid_dir_mode, create_mode, perm_bits, dir_create_bits, owner_rwx;
+    unfold narrow_mode, mid_dir_mode, create_mode, perm_bits, dir_create_bits, owner_rwx, c12_dir_owner_bits;
     bit_specs;
     (destruct (N.lt_ge_cases i 12) as [Hi|Hi];
      [ assert (Hc : i = 0 \/ i = 1 \/ i = 2 \/ i = 3 \/ i = 4 \/ i = 5 \/ i = 6 \/ i = 7 \/
